@@ -750,6 +750,7 @@ func runC12(w *World) *Result {
 	c12Pos(w, r)
 	c12Newlines(w, r)
 	c12CloseAfterNewline(w, r)
+	c12EOFNotEaten(w, r)
 	c12EOF(w, r)
 	SignRule(w, r, "R-C12-sign")
 	return r
@@ -2265,5 +2266,107 @@ func c12CloseAfterNewline(w *World, r *Result) {
 	}
 	if n == 0 {
 		r.Triv(rule, "nl:close:none", "-", "no token decision offers both a closing bracket and NEWLINE as alternatives")
+	}
+}
+
+// c12EOFNotEaten (R-C12-nl, clause "eof-eaten"): the end-of-file token is never consumed.
+// Where a token taken with the consuming accessor is allowed to be EOF (the EOF alternative
+// does not end in an error), everything that parses afterwards finds the token list
+// exhausted instead of the EOF it tests for: a construct that may end the file is then
+// accepted only when a NEWLINE follows it, i.e. acceptance depends on the final newline.
+func c12EOFNotEaten(w *World, r *Result) {
+	rule := "R-C12-nl"
+	lf, err := BuildLexFacts(w)
+	if err != nil {
+		return
+	}
+	if _, ok := lf.TokenTypes["EOF"]; !ok {
+		return
+	}
+	// consuming accessors: parser methods returning a token that advance an int field of the parser
+	consuming := map[*ssa.Function]bool{}
+	for _, fn := range w.Funcs("parser") {
+		res := fn.Signature.Results()
+		if res.Len() != 1 || namedName(res.At(0).Type()) != "Token" {
+			continue
+		}
+		for _, b := range fn.Blocks {
+			for _, ins := range b.Instrs {
+				if st, ok := ins.(*ssa.Store); ok {
+					if _, ok := st.Addr.(*ssa.FieldAddr); ok && isInt(st.Val.Type()) {
+						consuming[fn] = true
+					}
+				}
+			}
+		}
+	}
+	n := 0
+	for _, fn := range w.Funcs("parser") {
+		perFn := 0
+		for _, b := range fn.Blocks {
+			for _, ins := range b.Instrs {
+				tok, ok := ins.(*ssa.Call)
+				if !ok || tok.Call.StaticCallee() == nil || !consuming[tok.Call.StaticCallee()] {
+					continue
+				}
+				if !constantsTestedOn(w, lf, tok)["EOF"] {
+					continue
+				}
+				// the successor taken when the token is EOF
+				accepting := false
+				for _, blk := range fn.Blocks {
+					cnd, neg := condOf(blk)
+					if cnd == nil {
+						continue
+					}
+					hit := false
+					switch c := cnd.(type) {
+					case *ssa.BinOp:
+						if c.Op != token.EQL && c.Op != token.NEQ {
+							continue
+						}
+						name, isK := w.tokenTypeConst(c.Y, lf)
+						tv, isT := typeCallToken(w, c.X)
+						if isK && isT && name == "EOF" && tv == ssa.Value(tok) {
+							hit = true
+							if c.Op == token.NEQ {
+								neg = !neg
+							}
+						}
+					case *ssa.Call:
+						if len(c.Call.Args) == 2 {
+							if tv, isT := typeCallToken(w, c.Call.Args[1]); isT && tv == ssa.Value(tok) {
+								for _, nm := range w.listConstants(c.Call.Args[0], lf) {
+									if nm == "EOF" {
+										hit = true
+									}
+								}
+							}
+						}
+					}
+					if !hit {
+						continue
+					}
+					eofSucc := blk.Succs[0]
+					if neg {
+						eofSucc = blk.Succs[1]
+					}
+					if _, all := errorPaths(eofSucc, map[*ssa.BasicBlock]bool{}, 8); !all {
+						accepting = true
+					}
+				}
+				n++
+				perFn++
+				key := fmt.Sprintf("nl:eof-eaten:%s#%d", FuncName(fn), perFn)
+				if accepting {
+					r.Bad(rule, key, w.Pos(tok.Pos()), "a token taken with the consuming accessor may be the end-of-file token and parsing goes on: the EOF is gone for whatever parses next (the statement loop ends on EOF), so the construct is accepted in front of a final newline and rejected without one")
+				} else {
+					r.Ok(rule, key, w.Pos(tok.Pos()), "a consumed token that turns out to be EOF is an error")
+				}
+			}
+		}
+	}
+	if n == 0 {
+		r.Triv(rule, "nl:eof-eaten:none", "-", "no consumed token is compared with EOF")
 	}
 }
